@@ -20,6 +20,7 @@ BASE_URL = real.BASE_URL
 # Crashes of the unchanged tree that are listed in known_findings.txt: (exception class, innermost function).
 KNOWN_CRASHES = {
     ('RecursionError', 'resolve_var'): 'var-self-cycle-recursion',
+    ('TypeError', '__missing__'): 'var-inherit-on-root-typeerror',
 }
 FUEL = 120
 
@@ -603,6 +604,337 @@ def sec_vns(run):
                     nontrivial=name in properties.PROPERTIES, tags=['ok' if impl.startswith('ok') else impl])
 
 
+
+# ------------------------------------------------------------------- lengths: validation then computation
+
+UNIT_SPELLINGS = None
+
+
+def unit_spellings():
+    """Every LENGTH_UNIT as written, upper-cased, capitalised, mixed; plus units that are not lengths."""
+    global UNIT_SPELLINGS
+    if UNIT_SPELLINGS is None:
+        from weasyprint.css.utils import LENGTH_UNITS
+        out = []
+        for unit in sorted(LENGTH_UNITS):
+            out += [unit, unit.upper(), unit.capitalize(), unit[:-1] + unit[-1].upper()]
+        UNIT_SPELLINGS = sorted(set(out)) + ['vw', 'vh', 'deg', 'fr', 'xx', 'PX2', 'pxx', 'p']
+    return UNIT_SPELLINGS
+
+
+def ltok_wire(tok):
+    if tok.type == 'number':
+        return ['number', Fraction(tok.value)]
+    if tok.type == 'dimension':
+        return ['dimension', Fraction(tok.value), enc(tok.unit), enc(tok.lower_unit)]
+    if tok.type == 'percentage':
+        return ['percentage', Fraction(tok.value)]
+    return 'other'
+
+
+def length_token_text(rng):
+    r = rng.random()
+    value = rng.choice(['0', '1', '2', '0.5', '-1', '-0.25', '12', '96', '1.5', '-3', '0.0', '-0', '100'])
+    if r < 0.70:
+        return value + rng.choice(unit_spellings())
+    if r < 0.82:
+        return value + '%'
+    if r < 0.94:
+        return value
+    return rng.choice(['auto', 'red', '"s"', 'calc(1px)', '/', 'thin', 'normal'])
+
+
+def font_style_for(font_size, root_size, ex, ch):
+    from weasyprint.css import computed_values
+
+    class Style(dict):
+        pass
+    style = Style(font_size=float(font_size), font_family=('x',), font_style='normal', font_stretch='normal',
+                  font_weight=400, font_variant_caps='normal', font_variant_east_asian='normal',
+                  font_variant_ligatures='normal', font_variant_numeric='normal', font_variant_position='normal',
+                  font_variant_alternates='normal', font_kerning='auto', font_feature_settings='normal',
+                  font_language_override='normal', font_variation_settings='normal', lang=None)
+    root = Style(font_size=float(root_size))
+    style.root_style = root
+    key = computed_values._font_style_cache_key(style)
+    style.cache = {'ratio_ex': {key: float(ex)}, 'ratio_ch': {key: float(ch)}}
+    return style
+
+
+def computed_out(out):
+    """(wire text, exact value) of what `computed_values.length` returned."""
+    from weasyprint.css.properties import Dimension
+    if isinstance(out, Exception):
+        return f'err:{type(out).__name__}', Fraction(0)
+    if isinstance(out, str):
+        return f'kw {enc(out)}', Fraction(0)
+    number = out.value if isinstance(out, Dimension) else out
+    impl_q = Fraction(number)
+    nice = impl_q.limit_denominator(5000)
+    rel = 'exact' if nice == impl_q else 'near'
+    if isinstance(out, Dimension):
+        return f'dim {sx.atom(nice)} {enc(out.unit) if out.unit is not None else "none"} {rel}', impl_q
+    return f'number {sx.atom(nice)} {rel}', impl_q
+
+
+def length_properties():
+    """Longhands computed by `computed_values.length` whose validator is `get_length` with fixed flags (probed)."""
+    from weasyprint.css import computed_values
+    _, utils, _, _, properties = real.mods()
+    out = []
+    for key, fn in computed_values.COMPUTER_FUNCTIONS.items():
+        if fn is not computed_values.length:
+            continue
+        name = key.replace('_', '-')
+        if name not in properties.PROPERTIES:
+            continue
+        accepts = lambda text: G.call_validator(name, text)[0] == 'ok'     # noqa: E731
+        if not accepts('2px'):
+            continue
+        out.append((name, accepts('-2px'), accepts('50%')))
+    return sorted(out)
+
+
+def sec_lengths(run):
+    from weasyprint.css import computed_values
+    from weasyprint.css.properties import Dimension
+    _, utils, _, _, properties = real.mods()
+    sec = run.section('get-length', 'utils.get_length by direct call on number / dimension / percentage tokens, every '
+                      'LENGTH_UNIT in lower, upper and mixed case plus foreign units, all four flag combinations, vs the '
+                      'model; non-trivial = a dimension token')
+    for _ in range(run.n(1500, 30000)):
+        text = length_token_text(run.rng)
+        toks = tokens_of(text)
+        if len(toks) != 1:
+            continue
+        tok = toks[0]
+        negative, percentage = run.rng.random() < 0.5, run.rng.random() < 0.5
+        got = utils.get_length(tok, negative=negative, percentage=percentage)
+        impl = 'none' if got is None else f'dim {sx.atom(Fraction(got.value))} {enc(got.unit) if got.unit is not None else "none"}'
+        sec.add(sx.line('get-length', negative, percentage, ltok_wire(tok)), impl, meta={'token': text},
+                nontrivial=tok.type == 'dimension',
+                tags=[tok.type, 'accepted' if got is not None else 'rejected'])
+    sec2 = run.section('length-pipeline', 'every longhand computed by computed_values.length: the real validator '
+                       '(validate_non_shorthand) then the real computer on one token, vs model get_length (flags probed '
+                       'from the validator) then model length: an accepted length must come out in px (or stay a '
+                       'percentage); non-trivial = accepted')
+    props = length_properties()
+    run.extra['length_properties'] = len(props)
+    for name, negative, percentage in props:
+        for _ in range(run.n(60, 1200)):
+            text = length_token_text(run.rng)
+            toks = tokens_of(text)
+            if len(toks) != 1 or toks[0].type not in ('number', 'dimension', 'percentage'):
+                continue
+            tok = toks[0]
+            font_size = Fraction(run.rng.choice([8, 10, 16, 20]))
+            root_size = Fraction(run.rng.choice([10, 16, 24]))
+            ex, ch = Fraction(run.rng.choice([1, 2, 3]), 4), Fraction(run.rng.choice([1, 2]), 2)
+            style = font_style_for(font_size, root_size, ex, ch)
+            try:
+                (_, value), = properties.validate_non_shorthand([tok], name, BASE_URL, required=True)
+            except utils.InvalidValues:
+                value = None
+            except Exception as exc:  # noqa: BLE001
+                value = exc
+            impl_q = Fraction(0)
+            if value is None:
+                impl = 'rejected'
+            elif isinstance(value, Exception):
+                impl = f'err:{type(value).__name__}'
+            elif not isinstance(value, Dimension):
+                continue        # a keyword or a number of this property's own grammar (line-height: 2)
+            else:
+                try:
+                    out = computed_values.length(style, name, value)
+                except Exception as exc:  # noqa: BLE001
+                    out = exc
+                impl, impl_q = computed_out(out)
+            sec2.add(sx.line('length-pipeline', negative, percentage, font_size, root_size, ex, ch, False,
+                             ltok_wire(tok), impl_q), impl, meta={'name': name, 'css': text},
+                     nontrivial=impl != 'rejected', tags=[impl.split(' ')[0]])
+
+
+def judge_length_declaration(name, css):
+    """Clauses on `name: <one token>`: either the declaration is dropped (and then has no effect), or it is
+    supported: then its computed value is in px / % and the document renders; never an abort."""
+    import tinycss2
+    from weasyprint.css import computed_values
+    from weasyprint.css.properties import Dimension
+    _, utils, validation, _, _ = real.mods()
+    decls = tinycss2.parse_blocks_contents(f'{name}: {css}')
+    try:
+        out = list(validation.preprocess_declarations(BASE_URL, decls))
+    except Exception as exc:  # noqa: BLE001
+        return f'`{name}: {css}` makes preprocess_declarations raise {type(exc).__name__}'
+    for _, value, _ in out:
+        values = value if isinstance(value, tuple) and not isinstance(value, Dimension) else (value,)
+        for v in values:
+            if isinstance(v, Dimension) and v.unit not in (None, '%') and v.unit not in utils.LENGTH_UNITS:
+                return (f'`{name}: {css}` is accepted as {real.canon(v)}: the unit {v.unit!r} is not one of the length '
+                        f'units the engine converts (LENGTH_UNITS), so the value is never turned into pixels '
+                        f'(not interchangeable with its px spelling, layout aborts)')
+    sel = '.p'
+    a, exc = render_fp(f'{sel}{{border-style:solid;{name}: {css}}}')
+    if exc is not None and not known_crash(exc):
+        return f'`{sel}{{{name}: {css}}}` aborts rendering with {type(exc).__name__}'
+    if not out:
+        b, _ = render_fp(f'{sel}{{border-style:solid}}')
+        if a != b:
+            return f'`{name}: {css}` is dropped by the funnel but changes the rendering'
+    return None
+
+
+# ------------------------------------------------------------- ComputedStyle.__missing__: pending values
+
+PENDING_CASES = ('absent', 'inherit', 'initial', 'value', 'pending-valid', 'pending-invalid', 'pending-inherit',
+                 'pending-initial')
+PENDING_SKIP = ('text_decoration_line', 'text_decoration_color', 'text_decoration_style', 'text_decoration_thickness',
+                'page', 'anchor', 'link', 'lang')
+
+
+def cascaded_from(css):
+    import tinycss2
+    from weasyprint.css.validation import preprocess_declarations
+    return {name: (value, 0) for name, value, _ in
+            preprocess_declarations(BASE_URL, tinycss2.parse_blocks_contents(css))}
+
+
+def style_pair(parent_css, child_css):
+    """A real root ComputedStyle and a real child of it, from declaration texts."""
+    from weasyprint.css import ComputedStyle
+    root = ComputedStyle(None, cascaded_from(parent_css), None, None, None, BASE_URL)
+    root.root_style = root
+    child = ComputedStyle(root, cascaded_from(child_css), None, None, root, BASE_URL)
+    return root, child
+
+
+def style_value(style, key):
+    try:
+        return real.canon(style[key]), None
+    except RecursionError as exc:
+        return 'err:RecursionError', exc
+    except Exception as exc:  # noqa: BLE001
+        return f'err:{type(exc).__name__}', exc
+
+
+@__import__('functools').lru_cache(maxsize=None)
+def pending_samples(name):
+    """(valid non-initial value text, invalid value text) for a longhand, from its own / foreign grammar."""
+    from weasyprint.css.properties import INITIAL_VALUES
+    key = name.replace('-', '_')
+    valid = None
+    for atom in G.accepted_singles(name):
+        if '(' in atom or atom in ('inherit', 'initial') or any(c in atom for c in '"\''):
+            continue
+        _, child = style_pair('', f'{name}: {atom}')
+        _, plain = style_pair('', '')
+        if style_value(child, key)[0] != style_value(plain, key)[0] and not style_value(child, key)[0].startswith('err'):
+            valid = atom
+            break
+    invalid = None
+    for atom in ('red', '12px', 'solid', '"x"', '7', 'italic', 'rgb(1, 2, 3)', '3deg'):
+        if G.call_validator(name, atom)[0] == 'invalid':
+            invalid = atom
+            break
+    return valid, invalid
+
+
+def pending_case(name, case, root_is_subject):
+    """-> (child css, wire casc, reference css for 'specified') for one cascade shape of `name`."""
+    valid, invalid = pending_samples(name)
+    if case == 'absent':
+        return '', 'absent'
+    if case == 'inherit':
+        return f'{name}: inherit', 'inherit'
+    if case == 'initial':
+        return f'{name}: initial', 'initial'
+    if case == 'value':
+        return f'{name}: {valid}', 'value'
+    if case == 'pending-valid':
+        return f'--v: {valid}; {name}: var(--v)', ['pending', 'valid']
+    if case == 'pending-invalid':
+        return f'--v: {invalid}; {name}: var(--v)', ['pending', 'invalid']
+    if case == 'pending-inherit':
+        return f'--v: inherit; {name}: var(--v)', ['pending', 'inherit']
+    return f'--v: initial; {name}: var(--v)', ['pending', 'initial']
+
+
+def sec_pending(run):
+    from weasyprint.css.properties import INHERITED, INITIAL_VALUES
+    _, _, _, _, properties = real.mods()
+    sec = run.section('computed-pending', 'real ComputedStyle.__missing__ on a root and on a child whose parent has a '
+                      'non-initial value, for every longhand x {absent, inherit, initial, value, var() -> valid / '
+                      'invalid / inherit / initial}: which of specified / parent / initial is selected, vs the model '
+                      '(INHERITED regenerated from the source); non-trivial = a var() case')
+    names = [n for n in sorted(properties.PROPERTIES) if n.replace('-', '_') not in PENDING_SKIP
+             and n.replace('-', '_') in INITIAL_VALUES]
+    known = {}
+    for name in names:
+        key = name.replace('-', '_')
+        valid, invalid = pending_samples(name)
+        if valid is None or invalid is None:
+            continue
+        cases = PENDING_CASES if run.thorough else run.rng.sample(PENDING_CASES, 4) + ['pending-invalid']
+        for case in cases:
+            for subject_is_root in (False, True):
+                child_css, casc = pending_case(name, case, subject_is_root)
+                if subject_is_root:
+                    subject, _ = style_pair(child_css, '')
+                    ref_parent = None
+                else:
+                    root, subject = style_pair(f'{name}: {valid}', child_css)
+                    ref_parent, _ = style_value(root, key)
+                got, exc = style_value(subject, key)
+                # reference values of the three possible selections, computed by the real code on literal declarations
+                if subject_is_root:
+                    spec, _ = style_value(style_pair(f'{name}: {valid}', '')[0], key)
+                    init, _ = style_value(style_pair(f'{name}: initial', '')[0], key)
+                else:
+                    init, _ = style_value(style_pair(f'{name}: {valid}', f'{name}: initial')[1], key)
+                    spec = ref_parent      # the child's own `valid` value equals the parent's: disambiguate below
+                if got.startswith('err:'):
+                    impl = got
+                elif subject_is_root:
+                    impl = 'initial' if got == init else 'specified' if got == spec else f'other:{got[:40]}'
+                else:
+                    # parent carries `valid`; a specified `valid` on the child computes to the same value, so a
+                    # different valid value is used for the specified cases
+                    impl = 'initial' if got == init else 'parent' if got == ref_parent else f'other:{got[:40]}'
+                    if case in ('value', 'pending-valid'):
+                        impl = 'specified' if got == ref_parent else impl
+                if init == (spec if subject_is_root else ref_parent):
+                    continue        # the property's valid sample computes to its initial value here: ambiguous
+                sec.add(sx.line('select', enc(key), not subject_is_root, casc), impl,
+                        meta={'name': name, 'case': case, 'root': subject_is_root, 'valid': valid, 'invalid': invalid},
+                        nontrivial=case.startswith('pending'),
+                        tags=[case, 'inherited' if key in INHERITED else 'not-inherited', impl.split(':')[0]])
+    run.extra['pending_known'] = known
+
+
+def judge_pending(meta):
+    """var() = textual substitution at computed-value level: `name: var(--v)` with `--v: T` computes like
+    `name: T`; an invalid T leaves the property as if the declaration were absent."""
+    name, key = meta['name'], meta['name'].replace('-', '_')
+    for text in (meta['invalid'], meta['valid'], 'initial', 'inherit'):
+        for subject_is_root in (False, True):
+            var_css, lit_css = f'--v: {text}; {name}: var(--v)', f'{name}: {text}'
+            if subject_is_root:
+                a, exc = style_value(style_pair(var_css, '')[0], key)
+                b, _ = style_value(style_pair(lit_css, '')[0], key)
+                where = 'on the root element'
+            else:
+                a, exc = style_value(style_pair(f'{name}: {meta["valid"]}', var_css)[1], key)
+                b, _ = style_value(style_pair(f'{name}: {meta["valid"]}', lit_css)[1], key)
+                where = f'in a child of an element with {name}: {meta["valid"]}'
+            if subject_is_root and text == 'inherit' and a == 'err:TypeError':
+                continue     # known finding var-inherit-on-root-typeerror
+            if a != b:
+                return (f'`{name}: var(--v)` with `--v: {text}` computes to {a} {where}, the textual substitution '
+                        f'`{name}: {text}` computes to {b}')
+    return None
+
+
 # ------------------------------------------------------------------------------------------- var()
 
 VAR_NAMES = ['a', 'b', 'c', 'd', 'e']
@@ -885,6 +1217,53 @@ def sec_docs(run):
             continue
         sec.add(sx.line('echo', b), a, meta={'kind': 'var', **{k: case[k] for k in ('env', 'prop', 'value', 'sel')},
                                              'substituted': text}, tags=['var'])
+    # (5) unit spellings: a length the funnel keeps renders like its px spelling; one it drops, like nothing
+    from weasyprint.css.utils import LENGTHS_TO_PIXELS
+    import tinycss2
+    from weasyprint.css.validation import preprocess_declarations
+    for _ in range(run.n(40, 600)):
+        prop = rng.choice(['width', 'margin-left', 'padding-top', 'font-size', 'border-left-width', 'text-indent',
+                           'height', 'letter-spacing', 'line-height', 'top', 'column-gap', 'outline-width'])
+        unit = rng.choice(sorted(LENGTHS_TO_PIXELS))
+        written = rng.choice([unit, unit.upper(), unit.capitalize(), unit.upper(), unit[:-1] + unit[-1].upper()])
+        inches = Fraction(rng.choice([1, 2, 3]), rng.choice([1, 2, 4]))
+        k = dict(conversions)[unit]
+        if float(inches * k) * LENGTHS_TO_PIXELS[unit] != 96 * float(inches):
+            continue
+        value = f'{float(inches * k):.10g}{written}'
+        pre = 'border-left-style:solid;outline-style:solid;position:relative;'
+        sel = rng.choice(['.p', '.a', 'li'])
+        try:
+            kept = bool(list(preprocess_declarations(BASE_URL, tinycss2.parse_blocks_contents(f'{prop}: {value}'))))
+        except Exception:  # noqa: BLE001 - reported by the funnel section
+            continue
+        reference = f'{prop}:{float(96 * inches):.10g}px' if kept else ''
+        want, _ = render_fp(f'{sel}{{{pre}{reference}}}')
+        got, _ = render_fp(f'{sel}{{{pre}{prop}:{value}}}')
+        sec.add(sx.line('echo', want), got, meta={'kind': 'unit-spelling', 'prop': prop, 'value': value, 'sel': sel,
+                                                  'pre': pre, 'kept': kept},
+                tags=['unit-spelling:kept' if kept else 'unit-spelling:dropped'])
+    # (6) var() whose substituted value is invalid for the property = the literal invalid declaration = nothing
+    from weasyprint.css.properties import INHERITED
+    inherited = [n.replace('_', '-') for n in sorted(INHERITED)]
+    for _ in range(run.n(50, 800)):
+        # inherited properties only: for the others CSS makes a var() that is invalid at computed-value time fall
+        # back to the initial value even when a lower-priority declaration exists (css-variables-1 §3.1)
+        prop = rng.choice(inherited)
+        try:
+            valid, invalid = pending_samples(prop)
+        except Exception:  # noqa: BLE001
+            continue
+        if valid is None or invalid is None or prop.replace('-', '_') in PENDING_SKIP:
+            continue
+        parent = f'.a, ul, section{{{prop}: {valid}}}'
+        sel = rng.choice(['.p', 'li', '.x'])
+        want, _ = render_fp(f'{parent}{sel}{{{prop}: {invalid}}}')
+        got, exc = render_fp(f'{parent}body{{--v: {invalid}}}{sel}{{{prop}: var(--v)}}')
+        if known_crash(exc):
+            continue
+        sec.add(sx.line('echo', want), got, meta={'kind': 'var-invalid', 'prop': prop, 'valid': valid,
+                                                  'invalid': invalid, 'sel': sel}, tags=['var-invalid'])
     run.extra['known_crashes_skipped_in_documents'] = known
 
 
@@ -1082,7 +1461,16 @@ def replay_var_fallback_commas():
     return family(document) != family(reference)
 
 
+def render_raises(css, cls):
+    try:
+        docs.render(f'<style>{css}</style><p>x</p>')
+    except Exception as exc:  # noqa: BLE001
+        return type(exc).__name__ == cls
+    return False
+
+
 FINDING_REPLAYS = {
+    'var-inherit-on-root-typeerror': lambda: render_raises('html{--a:inherit;width:var(--a)}', 'TypeError'),
     'var-self-cycle-recursion': replay_var_self_cycle,
     'var-fallback-commas-dropped': replay_var_fallback_commas,
 }
@@ -1157,6 +1545,9 @@ def judge_expander(key, css):
             if not given and len(tokens) < 3 and value != 'initial':
                 return (f'{key}: {css} gives {long_name} the value {real.canon(value)} although no component of '
                         f'the value is a {long_name}: omitted longhands must be reset to initial')
+    what = judge_permutations(key, tokens, css)
+    if what:
+        return what
     if key == 'border-radius' and real.head_of(tokens) == 'plain':
         what = judge_border_radius(tokens, result, css)
         if what:
@@ -1179,6 +1570,85 @@ def judge_expander(key, css):
                 singles[2] if k > 2 else singles[0], singles[3] if k > 3 else (singles[1] if k > 1 else singles[0])]
         if k > 4 or values != want:
             return f'{key}: {css} maps to top/right/bottom/left = {values}, CSS says {want}'
+    return None
+
+
+# shorthands whose grammar is `a || b || c` on single tokens: the components may come in any order
+ORDER_FREE = ('columns', 'flex-flow', 'border-top', 'border-right', 'border-bottom', 'border-left', 'border', 'outline',
+              'column-rule', 'list-style', 'text-decoration')
+
+
+def expansion_dict(key, tokens):
+    """The registered expander as {longhand: canonical value}, 'invalid', or 'err:Class'."""
+    _, _, _, expanders, _ = real.mods()
+    kind, result, exc = real.outcome_list(lambda: expanders.EXPANDERS[key](tuple(tokens), key, BASE_URL))
+    if kind != 'ok':
+        return result
+    return {name: real.canon(value) for name, value in result}
+
+
+def judge_permutations(key, tokens, css):
+    """`||` grammars: every order of the components of a value means the same set of longhands (css-values-3 §2.3);
+    in particular if one order is accepted, all are."""
+    import itertools
+    if key not in ORDER_FREE or not 2 <= len(tokens) <= 4 or real.has_var(tokens):
+        return None
+    if any(t.type == 'literal' for t in tokens):
+        return None
+    outcomes = []
+    for perm in itertools.permutations(range(len(tokens))):
+        outcomes.append((perm, expansion_dict(key, [tokens[i] for i in perm])))
+    accepted = [(perm, out) for perm, out in outcomes if isinstance(out, dict)]
+    if not accepted:
+        return None
+    ref_perm, ref = accepted[0]
+    for perm, out in outcomes:
+        if out != ref:
+            spell = lambda p: ' '.join(real.tok_text(tokens[i]) for i in p)     # noqa: E731
+            return (f'`{key}: {spell(ref_perm)}` expands to {ref} but the same components in another order, '
+                    f'`{key}: {spell(perm)}`, give {out}: shorthand components are order independent')
+    return None
+
+
+def judge_shorthand_longhands(key, css):
+    """A shorthand renders like the longhand declarations obtained by giving each component to the longhand that
+    accepts it (independent reference: assignment by the longhand validators alone, no expander involved)."""
+    _, _, _, expanders, properties = real.mods()
+    tokens = tokens_of(css)
+    declared, _ = real.closure_of(expanders.EXPANDERS[key])
+    if key not in ORDER_FREE or declared is None or not 1 <= len(tokens) <= 3 or real.has_var(tokens):
+        return None
+    names = [real.actual_name(key, n) for n in declared]
+    accepts = []
+    for t in tokens:
+        ok = []
+        for n in names:
+            try:
+                properties.validate_non_shorthand([t], n, BASE_URL, required=True)
+                ok.append(n)
+            except Exception:  # noqa: BLE001
+                pass
+        accepts.append(ok)
+    # a perfect assignment token -> distinct longhand; ambiguous tokens (auto, none) take what is left
+    import itertools
+    assignments = [a for a in itertools.product(*accepts) if len(set(a)) == len(a)] if all(accepts) else []
+    if not assignments:
+        return None
+    texts = {real.tok_text(t) for t in tokens}
+    if len(assignments) > 1 and len(texts) == len(tokens):
+        # several assignments of distinct tokens: only acceptable when they are all ambiguous in the same way
+        if not all(set(a) == set(assignments[0]) for a in assignments):
+            return None
+    given = dict(zip(assignments[0], tokens))
+    longhands = '; '.join(f'{n}: {real.tok_text(given[n]) if n in given else "initial"}' for n in names)
+    sel = 'ul' if key == 'list-style' else '.a'
+    pre = 'column-gap:0;' if key in ('columns', 'column-rule') else ''
+    pre += 'columns:2;' if key == 'column-rule' else ''
+    pre += 'display:flex;' if key == 'flex-flow' else ''
+    a, exc = render_fp(f'{PARENTS_CSS}{sel}{{{pre}{key}: {css}}}')
+    b, _ = render_fp(f'{PARENTS_CSS}{sel}{{{pre}{longhands}}}')
+    if a != b and not known_crash(exc):
+        return f'`{key}: {css}` does not render like its longhands `{longhands}` ({a} vs {b})'
     return None
 
 
@@ -1379,6 +1849,8 @@ class C07(PropCheck):
         sec_list_style(run)
         sec_small_expanders(run)
         sec_vns(run)
+        sec_lengths(run)
+        sec_pending(run)
         sec_var(run)
         sec_docs(run)
 
@@ -1394,6 +1866,12 @@ class C07(PropCheck):
             return judge_expander('list-style', meta['css'])
         if section == 'units':
             return judge_units()
+        if section == 'length-pipeline':
+            return judge_length_declaration(meta['name'], meta['css'])
+        if section == 'get-length':
+            return judge_length_declaration('width', meta['token'])
+        if section == 'computed-pending':
+            return judge_pending(meta)
         if section == 'validate-non-shorthand':
             _, _, _, expanders, properties = real.mods()
             name = meta.get('name')
@@ -1420,7 +1898,7 @@ class C07(PropCheck):
         if 'kind' in meta:
             return judge_document(meta)
         if 'css' in meta and 'key' in meta:
-            return judge_expander(meta['key'], meta['css'])
+            return judge_expander(meta['key'], meta['css']) or judge_shorthand_longhands(meta['key'], meta['css'])
         if 'css' in meta:
             return judge_funnel_text(meta['css'])
         return None
@@ -1442,6 +1920,16 @@ def judge_document(meta):
         b, _ = render_fp(css(meta['b']))
         if a != b:
             return f'{meta["prop"]}: {meta["a"]} and {meta["b"]} are the same length but render differently'
+    elif kind == 'unit-spelling':
+        return judge_length_declaration(meta['prop'], meta['value']) or judge_unit_spelling(meta)
+    elif kind == 'var-invalid':
+        parent = f'.a, ul, section{{{meta["prop"]}: {meta["valid"]}}}'
+        a, _ = render_fp(f'{parent}{meta["sel"]}{{{meta["prop"]}: {meta["invalid"]}}}')
+        b, exc = render_fp(f'{parent}body{{--v: {meta["invalid"]}}}{meta["sel"]}{{{meta["prop"]}: var(--v)}}')
+        if a != b and not known_crash(exc):
+            return (f'`{meta["sel"]}{{{meta["prop"]}: var(--v)}}` with `--v: {meta["invalid"]}` (parents have '
+                    f'{meta["prop"]}: {meta["valid"]}) renders differently from the textual substitution '
+                    f'`{meta["prop"]}: {meta["invalid"]}`, which is dropped')
     elif kind == 'shorthand':
         sel, pre = meta.get('sel', '.p'), meta.get('pre', '')
         a, _ = render_fp(f'{PARENTS_CSS}{sel}{{{pre}{meta["key"]}: {meta["css"]}}}')
@@ -1460,6 +1948,26 @@ def judge_document(meta):
         if a != b:
             return (f'{meta["prop"]}: {meta["value"]} with {meta["env"]} renders differently from its textual '
                     f'substitution `{text}`')
+    return None
+
+
+def judge_unit_spelling(meta):
+    import re
+    m = re.match(r'([-0-9.e+]+)([A-Za-z]+)$', meta['value'])
+    if not m:
+        return None
+    from weasyprint.css.utils import LENGTHS_TO_PIXELS
+    unit = m.group(2).lower()
+    if unit not in LENGTHS_TO_PIXELS:
+        return None
+    px = float(m.group(1)) * LENGTHS_TO_PIXELS[unit]
+    sel, pre, prop = meta.get('sel', '.p'), meta.get('pre', ''), meta['prop']
+    a, _ = render_fp(f'{sel}{{{pre}{prop}:{meta["value"]}}}')
+    dropped, _ = render_fp(f'{sel}{{{pre}}}')
+    same, _ = render_fp(f'{sel}{{{pre}{prop}:{px:.10g}px}}')
+    if a not in (dropped, same):
+        return (f'`{prop}: {meta["value"]}` renders neither as if absent nor like `{prop}: {px:.10g}px` '
+                f'({a} vs {dropped} / {same})')
     return None
 
 
@@ -1518,6 +2026,27 @@ def search(run, failures):
     what = judge_units()
     if add(what, {'units': True}, 'units'):
         return found
+    for key in ORDER_FREE:
+        longhand_names = [n for n, _ in real.outcome_list(
+            lambda: real.mods()[3].EXPANDERS[key](tuple(tokens_of('inherit')), key, BASE_URL))[1]]
+        pool = sorted({a for n in longhand_names for a in G.accepted_singles(n)
+                       if '(' not in a and a not in ('inherit', 'initial')})
+        if not pool:
+            continue
+        for _ in range(run.n(60, 400)):
+            atoms = [rng.choice(pool) for _ in range(rng.choice([2, 2, 3]))]
+            css = ' '.join(atoms)
+            run.search_stats['evaluations'] += 1
+            if add(judge_permutations(key, tokens_of(css), css), {'key': key, 'css': css}, f'perm:{key}'):
+                return found
+        for _ in range(run.n(4, 30)):
+            atoms = [rng.choice(pool) for _ in range(rng.choice([1, 2]))]
+            css = ' '.join(atoms)
+            if not isinstance(expansion_dict(key, tokens_of(css)), dict):
+                continue
+            run.search_stats['evaluations'] += 1
+            if add(judge_shorthand_longhands(key, css), {'key': key, 'css': css, 'doc': True}, f'longhands:{key}'):
+                return found
     for name in props + shorthands:
         run.search_stats['evaluations'] += 1
         if add(judge_css_wide(name), {'section': 'validate-non-shorthand', 'meta': {'name': name}}, 'css-wide'):
